@@ -47,9 +47,6 @@ POOL_KINDS = {"battery", "ev_charger"}  # generators take component ids from the
 
 # every way the generators spell "the component graph"; inside the graph class it is `self`
 GRAPH_TEXTS = ("connection_manager.get().component_graph",)
-# callees the rules bind to by name (never expanded into their callers)
-KEEP_CALLEES = {"_get_grid_component_successors", "_get_grid_component", "_get_fallback_formulas", "_get_builder",
-                "_get_chp_meters"}
 METER = "ComponentCategory.METER"
 
 
@@ -147,9 +144,9 @@ class Ctx:
         if pf_name is None:
             scopes: list[ast.AST] = [mfc.node] + [fg.methods[c.func.attr].node for c in self_calls(mfc.node)
                                                   if c.func.attr in fg.methods and c.func.attr != mf_name and c.func.attr.startswith("_")]
-            cands = {c.func.attr for sc in scopes for c in self_calls(sc) if len(c.args) + len(c.keywords) == 2
-                     and c.func.attr in fg.methods and len(fg.methods[c.func.attr].params) == 3
-                     and c.func.attr not in {m.name for m in [mfc]} and fg.methods[c.func.attr].node not in scopes}
+            tests = [t.test for sc in scopes for t in ast.walk(sc) if isinstance(t, (ast.If, ast.IfExp, ast.While))]
+            cands = {c.func.attr for t in tests for c in self_calls(t) if len(c.args) + len(c.keywords) == 2
+                     and c.func.attr in fg.methods and len(fg.methods[c.func.attr].params) == 3 and c.func.attr != mfc.name}
             pf_name = next(iter(cands)) if len(cands) == 1 else None
         if mf_name is None or pf_name is None:
             raise AnalysisError(f"no function of {fg.qual} plays the role of `_get_meter_fallback_components` / `_is_primary_fallback_pair`")
